@@ -18,13 +18,15 @@
 (***************************************************************************)
 EXTENDS Naturals, Sequences, FiniteSets
 
-Chars == {"x", " ", "%", "#", "?", ";", "+", "e'", "2", "4", "0"}
+\* "ca" : a combining acute accent (U+0301, two UTF-8 octets) - after a letter it forms a
+\* name in decomposed (NFD) form, which is a different name than the precomposed one
+Chars == {"x", " ", "%", "#", "?", ";", "+", "e'", "2", "4", "0", "ca"}
 Unreserved(c) == c \in {"x", "2", "4", "0"}
 
 \* octets of a character (as hex pairs) for the reserved ones
 Octets(c) ==
     CASE c = " " -> <<"20">> [] c = "%" -> <<"25">> [] c = "#" -> <<"23">> [] c = "?" -> <<"3F">>
-      [] c = ";" -> <<"3B">> [] c = "+" -> <<"2B">> [] c = "e'" -> <<"C3", "A9">> [] OTHER -> <<>>
+      [] c = ";" -> <<"3B">> [] c = "+" -> <<"2B">> [] c = "e'" -> <<"C3", "A9">> [] c = "ca" -> <<"CC", "81">> [] OTHER -> <<>>
 
 \* an emitted href is a sequence of tokens: a literal unreserved character or an escape <<"%", hex>>
 RECURSIVE Emit(_)
@@ -43,6 +45,7 @@ Deref(h) ==
     IF h = <<>> THEN <<>>
     ELSE IF "lit" \in DOMAIN Head(h) THEN <<Head(h).lit>> \o Deref(Tail(h))
     ELSE IF Head(h).esc = "C3" THEN <<"e'">> \o Deref(Tail(Tail(h)))
+    ELSE IF Head(h).esc = "CC" THEN <<"ca">> \o Deref(Tail(Tail(h)))
     ELSE <<CharOf(<<Head(h).esc>>)>> \o Deref(Tail(h))
 
 Names(k) == UNION {[1..j -> Chars] : j \in 1..k}
